@@ -222,6 +222,8 @@ OPAQUE = {
     # input validation pipeline (runners/_shared/validation.py): helpers outside the verified subset (networkx scopes,
     # message building); declared result types only, any of them may raise
     "_resolve_active_scope": {"returns": FIXTUP(DICT(STR, OBJ("HyperNode")), ANY)},
+    "_compute_active_scope": {"returns": FIXTUP(DICT(STR, OBJ("HyperNode")), ANY)},
+    "_compute_entrypoints": {"returns": DICT(STR, SEQ(STR))},
     "_resolve_effective_input_spec": {"returns": OBJ("InputSpec")},
     "get_edge_produced_values": {"returns": SET(STR)},
     "_get_interrupt_outputs": {"returns": SET(STR)},
